@@ -176,6 +176,25 @@ Theorem ct_reset_keeps_open_files : forall t req lim p o,
 Proof. exact ct_reset_keeps_open_files_lemma. Qed.
 Print Assumptions ct_reset_keeps_open_files.
 
+(** A refused open changes nothing.  Whenever Hopen has to open a stream and the system refuses it -- the first open of
+    a path, a create, or the re-open for writing of a file that is open read-only (nested opens of one path in
+    different modes) -- the call fails and the state is exactly what it was: the record, its reference and attach
+    counts and every id stay as they were.  (The model follows the order of HI_OPEN and HI_CLOSE in that branch of
+    Hopen, regenerated as Hopen_reopen_opens_before_closing.) *)
+Theorem denied_open_changes_nothing : forall st p acc,
+  (forall r fr, rec_of_path p st = Some (r, fr) ->
+     acc = DFACC_CREATE \/ (0 <? Z.land acc DFACC_WRITE) && (Z.land (faccess fr) DFACC_WRITE =? 0) = true) ->
+  f_step (FOpenDenied p acc) st = (RFail, st).
+Proof. exact denied_open_changes_nothing_lemma. Qed.
+Print Assumptions denied_open_changes_nothing.
+
+(** ANend (mfan.c) removes the ids of every annotation type from the atom group (types and the set ANend walks are
+    regenerated from hdf.h and mfan.c). *)
+Theorem anend_releases_every_annotation_type :
+  forall t, In t [AN_DATA_LABEL; AN_DATA_DESC; AN_FILE_LABEL; AN_FILE_DESC] -> In t ANend_types_released.
+Proof. exact anend_releases_every_type_lemma. Qed.
+Print Assumptions anend_releases_every_annotation_type.
+
 (** Non-vacuity: the hypotheses are met by concrete non-trivial states / histories. *)
 Example init_state_related : Rel m_init s_init.
 Proof. exact Rel_init. Qed.
@@ -218,5 +237,11 @@ Example ct_boundary_request :
   ct_check 2 t = Some 9 /\ fst (ct_reset 2 20000 t) = 32 /\ fst (ct_reset 3 20000 t) = 3 /\
   ct_check 2 (snd (ct_reset 3 20000 t)) = Some 9 /\ ct_check 2 (snd (ct_reset 2 20000 t)) = Some 9.
 Proof. vm_compute. repeat split. Qed.
+Example denied_reopen_state :
+  (* path 1 open read-only with an access element attached; a write open of the same path is refused by the system *)
+  let st := snd (f_run [FOpen 1 DFACC_READ; FStart 0 false] f_init) in
+  (exists r fr, rec_of_path 1 st = Some (r, fr) /\ (0 <? Z.land DFACC_WRITE DFACC_WRITE) && (Z.land (faccess fr) DFACC_WRITE =? 0) = true) /\
+  fst (f_run [FOpenDenied 1 DFACC_WRITE; FInq 0; FEnd 1; FClose 0] st) = [RFail; ROk 1; ROk 0; ROk 0].
+Proof. vm_compute. split; [eexists; eexists; split; reflexivity|reflexivity]. Qed.
 Example cache_size : ATOM_CACHE_SIZE = 4.
 Proof. exact cache_size_is_4. Qed.
